@@ -145,7 +145,7 @@ def measure_cells(tier: str, seed: int):
             for pi, (entry, tg, noargs) in enumerate(plans):
                 for fi, flags in enumerate(MEASURE_FLAGS):
                     n += 1
-                    if quick and n % 5 != 0:
+                    if quick and n % 9 != 0:
                         continue
                     for cls in _cls_opts(ltag, quick, extra=(["neg"] if quick and ltag == "V" and n % 2 else [])):
                         spec = LY.make_spec(blocks, levels, {}, default_level=dl, default_cls=cls, bystander=(n % 7 == 0),
@@ -182,4 +182,204 @@ def measure_cells(tier: str, seed: int):
                             a["env"] = 0
                         cells.append(_cell(spec, tag, lv, cls, True, seed, a,
                                            flags=",".join(sorted(k[:3] for k, v in flags.items() if (v if k.startswith("sep") else not v))) or "default"))
+    return cells
+
+
+def _flagtag(fl):
+    return ",".join(f"{k[:4]}={int(bool(v))}" for k, v in sorted(fl.items())) or "default"
+
+
+def povm_cells(tier: str, seed: int):
+    cells = []
+    quick = tier == "quick"
+    n = 0
+    plans = []
+    for t in ("e0.f", "e0.p", "c0", "e1.p"):
+        plans.append(("self", [t]))
+        plans.append(("ce", [t]))
+    for t in ("e0.f", "e0.p"):
+        plans.append(("env", [t]))
+    plans += [("env", ["e0.f", "e0.p"]), ("env", ["e0.p", "e0.f"]), ("ce", ["e0.p", "e1.p"]), ("ce", ["e1.p", "e0.f"]),
+              ("ce", ["c0", "e0.p"]), ("ce", ["e0.f", "e0.p"]), ("ce", ["e1.p", "c0", "e0.p"])]
+    opsets = [{"n": 2, "seed": 3, "projective": False}, {"n": 3, "seed": 4, "projective": False}, {"n": 2, "seed": 5, "projective": True}]
+    flagsets = [{}, {"destructive": False}, {"destructive": True, "partial": True}, {"destructive": False, "partial": True}]
+    for si, (tag, blocks) in enumerate(LY.STRUCTS):
+        for ltag, levels, dl in LY.level_settings(blocks, [], tier):
+            for pi, (entry, tg) in enumerate(plans):
+                for oi, ops in enumerate(opsets):
+                    for fi, fl in enumerate(flagsets):
+                        if "partial" in fl and entry != "self":
+                            continue
+                        n += 1
+                        if quick and n % 13 != 0:
+                            continue
+                        if not quick and n % 2 != 0:
+                            continue
+                        for cls in _cls_opts(ltag, True):
+                            spec = LY.make_spec(blocks, levels, {}, default_level=dl, default_cls=cls, bystander=(n % 6 == 0),
+                                                fock_dims={"e0": 2, "e1": 3})
+                            cells.append(_cell(spec, tag, ltag, cls, bool(n % 2), seed,
+                                               {"kind": "povm", "entry": entry, "targets": [LY.rename(spec, t) for t in tg], "ops": ops, "flags": fl},
+                                               flags=_flagtag(fl), variant="projective" if ops["projective"] else f"general{ops['n']}", reordered=True,
+                                               ntargets=len(tg), target_store="+".join(sorted({LY.block_of(blocks, t)[0] for t in tg}))))
+    for order, tag in ((["e0.f", "e0.p"], "envalone01"), (["e0.p", "e0.f"], "envalone10"), (None, "alone")):
+        for lv, clss in (("V", ["pure"]), ("M", ["mixed"]), ("L", ["basis"])):
+            for cls in clss:
+                if order is None:
+                    spec = LY.make_spec([], {}, {}, envs=("e0",), customs=("c0",), composite=False, default_level=lv, default_cls=cls, fock_dims={"e0": 3})
+                elif lv == "L":
+                    continue
+                else:
+                    spec = LY.make_spec([("env", order)], {order[0]: lv}, {order[0]: cls}, envs=("e0",), customs=(), composite=False, fock_dims={"e0": 3})
+                pl = [("self", ["e0.f"]), ("self", ["e0.p"]), ("env", ["e0.f"]), ("env", ["e0.p"]), ("env", ["e0.f", "e0.p"]), ("env", ["e0.p", "e0.f"])]
+                if order is None:
+                    pl.append(("self", ["c0"]))
+                for entry, tg in pl:
+                    for ops in opsets[:2] if quick else opsets:
+                        for fl in flagsets:
+                            if "partial" in fl and entry != "self":
+                                continue
+                            cells.append(_cell(spec, tag, lv, cls, True, seed,
+                                               {"kind": "povm", "entry": entry, "targets": [LY.rename(spec, t) for t in tg], "ops": ops, "flags": fl},
+                                               flags=_flagtag(fl), variant="projective" if ops["projective"] else f"general{ops['n']}", ntargets=len(tg),
+                                               target_store="own" if order is None else "env"))
+    return cells
+
+
+def kraus_cells(tier: str, seed: int):
+    cells = []
+    quick = tier == "quick"
+    n = 0
+    plans = []
+    for t in ("e0.f", "e0.p", "c0", "e1.p"):
+        plans.append(("self", [t]))
+        plans.append(("ce", [t]))
+    for t in ("e0.f", "e0.p"):
+        plans.append(("env", [t]))
+    plans += [("env", ["e0.f", "e0.p"]), ("env", ["e0.p", "e0.f"]), ("ce", ["e0.p", "e1.p"]), ("ce", ["e1.p", "e0.f"]),
+              ("ce", ["c0", "e0.p"]), ("ce", ["e0.f", "e0.p"]), ("ce", ["e1.p", "c0", "e0.p"]), ("ce", ["e1.f", "e0.f"])]
+    chans = ["random2", "random3", "dephasing", "unitary", "reset", "amplitude_damping", "random4"]
+    for si, (tag, blocks) in enumerate(LY.STRUCTS):
+        for ltag, levels, dl in LY.level_settings(blocks, [], tier):
+            for pi, (entry, tg) in enumerate(plans):
+                for ci, ch in enumerate(chans):
+                    n += 1
+                    if quick and n % 11 != 0:
+                        continue
+                    for cls in _cls_opts(ltag, True):
+                        spec = LY.make_spec(blocks, levels, {}, default_level=dl, default_cls=cls, bystander=(n % 6 == 0),
+                                            fock_dims={"e0": 2, "e1": 3})
+                        cells.append(_cell(spec, tag, ltag, cls, bool(n % 2), seed,
+                                           {"kind": "kraus", "entry": entry, "targets": [LY.rename(spec, t) for t in tg], "ops": {"name": ch, "seed": 7 + ci}},
+                                           variant=ch, reordered=True, ntargets=len(tg)))
+    for order, tag in ((["e0.f", "e0.p"], "envalone01"), (["e0.p", "e0.f"], "envalone10"), (None, "alone")):
+        for lv, clss in (("V", ["pure"]), ("M", ["mixed"]), ("L", ["basis"])):
+            for cls in clss:
+                if order is None:
+                    spec = LY.make_spec([], {}, {}, envs=("e0",), customs=("c0",), composite=False, default_level=lv, default_cls=cls, fock_dims={"e0": 3})
+                elif lv == "L":
+                    continue
+                else:
+                    spec = LY.make_spec([("env", order)], {order[0]: lv}, {order[0]: cls}, envs=("e0",), customs=(), composite=False, fock_dims={"e0": 3})
+                pl = [("self", ["e0.f"]), ("self", ["e0.p"]), ("env", ["e0.f"]), ("env", ["e0.p"]), ("env", ["e0.f", "e0.p"]), ("env", ["e0.p", "e0.f"])]
+                if order is None:
+                    pl.append(("self", ["c0"]))
+                for entry, tg in pl:
+                    for ci, ch in enumerate(chans[:5]):
+                        for contraction in (True, False):
+                            cells.append(_cell(spec, tag, lv, cls, contraction, seed,
+                                               {"kind": "kraus", "entry": entry, "targets": [LY.rename(spec, t) for t in tg], "ops": {"name": ch, "seed": 7 + ci}},
+                                               variant=ch, ntargets=len(tg)))
+    return cells
+
+
+def resize_cells(tier: str, seed: int):
+    """C10: resize at the three entry points; state classes with support touching the top level ('pure',
+    'mixed': population everywhere) and with an empty top level ('lowfock', 'mixedlow')."""
+    cells = []
+    quick = tier == "quick"
+    n = 0
+    for si, (tag, blocks) in enumerate(LY.STRUCTS):
+        for ltag, levels, dl in LY.level_settings(blocks, [], tier):
+            for target in ("e0.f", "e1.f"):
+                for new in ("+2", "+1", "0", "-1", "-2", -5, 0):
+                    for entry in ("self", "env", "ce"):
+                        n += 1
+                        if quick and n % 4 != 0:
+                            continue
+                        clss = {"V": ["pure", "lowfock"], "M": ["mixed", "mixedlow"], "L": ["basis"]}[ltag]
+                        for cls in clss:
+                            spec = LY.make_spec(blocks, levels, {}, default_level=dl, default_cls=cls, bystander=(n % 6 == 0))
+                            cells.append(_cell(spec, tag, ltag, cls, True, seed,
+                                               {"kind": "resize", "entry": entry, "targets": [LY.rename(spec, target)], "new": new},
+                                               variant=str(new), reordered=True))
+    for order, tag in ((["e0.f", "e0.p"], "envalone01"), (["e0.p", "e0.f"], "envalone10"), (None, "alone")):
+        for lv, clss in (("V", ["pure", "lowfock", "basis"]), ("M", ["mixed", "mixedlow", "basis"]), ("L", ["basis"])):
+            for cls in clss:
+                if order is None:
+                    spec = LY.make_spec([], {}, {}, envs=("e0",), customs=(), composite=False, default_level=lv, default_cls=cls, fock_dims={"e0": 4},
+                                        labels={"e0.f": 2})
+                elif lv == "L":
+                    continue
+                else:
+                    spec = LY.make_spec([("env", order)], {order[0]: lv}, {order[0]: cls}, envs=("e0",), customs=(), composite=False, fock_dims={"e0": 4})
+                for new in ("+3", "+1", "0", "-1", "-2", "-3", 0, -1, 2, 3):
+                    for entry in ("self", "env"):
+                        cells.append(_cell(spec, tag, lv, cls, True, seed,
+                                           {"kind": "resize", "entry": entry, "targets": ["e0.f"], "new": new}, variant=str(new)))
+    return cells
+
+
+def after_measure_cells(tier: str, seed: int):
+    """C05 continuation: after a measurement, use of a destroyed subsystem fails, survivors stay usable,
+    non-destructively measured subsystems re-measure to the same value."""
+    cells = []
+    quick = tier == "quick"
+    n = 0
+    X = {"kind": "op", "entry": "self", "fam": "Polarization", "type": "X", "params": {}}
+    CRE = {"kind": "op", "entry": "self", "fam": "Fock", "type": "Creation", "params": {}}
+    for si, (tag, blocks) in enumerate(LY.STRUCTS):
+        for ltag, levels, dl in LY.level_settings(blocks, [], tier):
+            if ltag == "L" and quick:
+                continue
+            for entry, tg in (("self", ["e0.f"]), ("ce", ["e0.p"]), ("env", ["e0.f"]), ("ce", ["e0.f", "e1.p"])):
+                for flags in ({}, {"destructive": False}, {"separate_measurement": True}):
+                    n += 1
+                    if quick and n % 4 != 0:
+                        continue
+                    cls = {"V": "pure", "M": "mixed", "L": "basis"}[ltag]
+                    spec = LY.make_spec(blocks, levels, {}, default_level=dl, default_cls=cls, fock_dims={"e0": 2, "e1": 3})
+                    R = lambda m: LY.rename(spec, m)
+                    first = {"kind": "measure", "entry": entry, "targets": [R(t) for t in tg], "flags": flags}
+                    destructive = flags.get("destructive", True)
+                    sep = flags.get("separate_measurement", False)
+                    measured = set(tg)
+                    if not sep:
+                        for t in tg:
+                            if "." in t:
+                                measured.add(t[:3] + ("p" if t.endswith("f") else "f"))
+                    steps = [first]
+                    if destructive:
+                        for m in sorted(measured):
+                            if m.endswith(".f"):
+                                steps.append(dict(CRE, targets=[R(m)], must_raise=True))
+                            elif m.endswith(".p"):
+                                steps.append(dict(X, targets=[R(m)], must_raise=True))
+                            if "." in m:
+                                steps.append({"kind": "measure", "entry": "self", "targets": [R(m)], "flags": {}, "must_raise": True})
+                                steps.append({"kind": "kraus", "entry": "self", "targets": [R(m)], "ops": {"name": "dephasing"}, "must_raise": True})
+                    else:
+                        for m in sorted(measured):
+                            steps.append({"kind": "measure", "entry": "self", "targets": [R(m)], "flags": {"destructive": False, "separate_measurement": True}})
+                    # survivors stay usable
+                    for sv in ("e1.p", "e1.f", "c0", "e0.p", "e0.f"):
+                        if sv in measured and destructive:
+                            continue
+                        if sv.endswith(".p"):
+                            steps.append(dict(X, targets=[R(sv)]))
+                        elif sv.endswith(".f") and sv not in measured:
+                            steps.append({"kind": "op", "entry": "self", "fam": "Fock", "type": "PhaseShift", "params": {"phi": 0.3}, "targets": [R(sv)]})
+                        break
+                    cells.append(_cell(spec, tag, ltag, cls, bool(n % 2), seed, {"kind": "seq", "steps": steps, "targets": [R(t) for t in tg], "entry": entry},
+                                       flags=_flagtag(flags), variant="after-measure"))
     return cells
